@@ -403,7 +403,8 @@ def plan_C09(rep, seed, tier):
     rv(rep, binp, 'dec-cutsets', seed, tier, extra=['--repl', 'on', '--sinks', 'utf8,utf16'], tag='dec-cutsets-repl')
     rv(rep, binp, 'enc-cutsets', seed, tier, extra=['--repl', 'on'], tag='enc-cutsets-repl')
     rv(rep, binp, 'dec-random', seed, tier, extra=['--repl', 'on'], tag='dec-random-repl')
-    rep.cov['rule'] = ('with-replacement methods on cut-set and random histories: output = Standard items with one U+FFFD per error item / one NCR per unmappable atom, '
+    rv(rep, binp, 'enc-pairs', seed, tier, extra=['--repl', 'on', '--thin', '2' if tier == 'quick' else '1'], tag='enc-pairs-repl')
+    rep.cov['rule'] = ('with-replacement methods on cut-set and random histories and on whole texts incl. every decimal-length boundary of the numeric character reference: output = Standard items with one U+FFFD per error item / one NCR per unmappable atom, '
                        'had_errors / had_unmappables = an error item / NCR atom was emitted in that call (the monitor aligns output with the Standard item by item); '
                        'the without-replacement twin histories are validated by the same monitor in C02/C04')
 
@@ -422,7 +423,9 @@ def plan_C12(rep, seed, tier):
     binp = build_harness('default')
     rv(rep, binp, 'enc-pairs', seed, tier)
     rv(rep, binp, 'enc-random', seed, tier, extra=['--repl', 'on'], tag='enc-random-repl')
-    rep.cov['rule'] = ('after every encode call: Standard decoder of the same encoding over all bytes so far reports no error, decodes to the input modulo the fold set, '
+    rv(rep, binp, 'enc-sweep', seed, tier, shards=32)
+    rep.cov['rule'] = ('every scalar alone through every encoder (aggregate sweep: the bytes must be the Standard\'s, which decode back by FoldOf; output accompanying an Unmappable answer is reported); '
+                       'after every encode call: Standard decoder of the same encoding over all bytes so far reports no error, decodes to the input modulo the fold set, '
                        'has_pending_state() = state implied by the emitted escapes, ASCII state at the end')
 
 
@@ -431,7 +434,8 @@ def plan_C18(rep, seed, tier):
     rv(rep, binp, 'dec-cutsets', seed, tier, extra=['--twins', '--thin', '2' if tier == 'quick' else '1'], tag='dec-cutsets-twins')
     rv(rep, binp, 'enc-cutsets', seed, tier, extra=['--twins', '--thin', '2' if tier == 'quick' else '1'], tag='enc-cutsets-twins')
     rv(rep, binp, 'dec-random', seed, tier, extra=['--twins'], tag='dec-random-twins')
-    rep.cov['rule'] = ('every call executed on three converters in lockstep with the destination (incl. String/Vec spare capacity) pre-filled 0x00 / 0xFF / 0xA5; '
+    rv(rep, binp, 'mem', seed, tier, shards=32, extra=['--which', 'c15', '--thin', '3' if tier == 'quick' else '1'], tag='mem-fills')
+    rep.cov['rule'] = ('every mem conversion executed with the destination pre-filled 0xA5 / 0x00 / 0xFF; every call executed on three converters in lockstep with the destination (incl. String/Vec spare capacity) pre-filled 0x00 / 0xFF / 0xA5; '
                        'return tuples and dst[..written] must be identical')
 
 
